@@ -540,7 +540,7 @@ class Transformer:
             "Removed %s zone infos with unsupported UNTIL time suffix",
             len(removed_zones))
         self._print_removed_map(removed_zones)
-        _merge_reasons(self.all_removed_policies, removed_zones)
+        _merge_reasons(self.all_removed_zones, removed_zones)
         return results
 
     def _create_zones_with_expanded_offset_string(
